@@ -42,6 +42,13 @@ def hkl_residual(rmat, ubmat, hkl, q):
     return hp.norm(hp.sub(lhs, qv)), hp.norm(qv)
 
 
+def hkl_residual_a(a, hkl, q):
+    """Same as hkl_residual with the product a = R UB (mpf 3x3) already formed."""
+    lhs = hp.scale(geom.matvec(a, hp.vec(hkl)), 2 * hp.PI)
+    qv = hp.vec(q)
+    return hp.norm(hp.sub(lhs, qv)), hp.norm(qv)
+
+
 def hkl_exact(rmat, ubmat, q):
     """Solve 2 pi R UB hkl = Q at 50 digits (Cramer)."""
     a = geom.matmul(rmat, ubmat)
